@@ -26,6 +26,8 @@ package codec
 //@   requires c != nil
 //@   ensures [C04 frame] err == nil ==> len(old(connstream(c))) >= 4 && plen(old(connstream(c))) >= 4 && len(old(connstream(c))) >= plen(old(connstream(c))) && result == take(old(connstream(c)), plen(old(connstream(c)))) && connstream(c) == drop(old(connstream(c)), plen(old(connstream(c))))
 //@   ensures [C04 error] err != nil ==> len(result) == 0
+//@   ensures [C04 delivered] nofault(c) && len(old(connstream(c))) >= 4 && plen(old(connstream(c))) >= 4 && len(old(connstream(c))) >= plen(old(connstream(c))) ==> err == nil
+//@   ensures [C04 refused] len(old(connstream(c))) >= 4 && plen(old(connstream(c))) < 4 ==> err != nil
 //@   ensures [C03 alloc] alloc <= 1048576
 
 //@ func (cc *SMPPCodec) DecodeBlocked
@@ -33,4 +35,6 @@ package codec
 //@   requires c != nil
 //@   ensures [C04 frame] err == nil ==> len(old(connstream(c))) >= 4 && plen(old(connstream(c))) >= 4 && len(old(connstream(c))) >= plen(old(connstream(c))) && result == take(old(connstream(c)), plen(old(connstream(c)))) && connstream(c) == drop(old(connstream(c)), plen(old(connstream(c))))
 //@   ensures [C04 error] err != nil ==> len(result) == 0
+//@   ensures [C04 delivered] nofault(c) && len(old(connstream(c))) >= 4 && plen(old(connstream(c))) >= 4 && len(old(connstream(c))) >= plen(old(connstream(c))) ==> err == nil
+//@   ensures [C04 refused] len(old(connstream(c))) >= 4 && plen(old(connstream(c))) < 4 ==> err != nil
 //@   ensures [C03 alloc] alloc <= 1048576
